@@ -1,5 +1,5 @@
 import GateryModel.C20.RoundTrip
-import GateryModel.C20.TVObserve
+import GateryModel.C20.TVEdge
 /-!
 # C20 — property theorems
 
@@ -75,29 +75,50 @@ theorem adv_no_drift (rest : List TEv) (hm : Mono 0 rest) (pre : List Group) (g 
   rw [h] at hd
   simpa using driftOk_split pre g post 0 hd
 
-/-- **Every group lies between the two clock events that bracket it.** The groups written by one flush are scheduled inside the
-    interval between the previous AFTER-phase notification (`start`) and the current one (`stop`), strictly inside when the
-    interval is not empty; `start` / `stop` are consecutive entries of the simulator's flush times. -/
+/-- **Every group lies between the two flushes that bracket it.** The groups written by one flush are scheduled inside the
+    interval between the previous flush (`start`) and the current one (`stop`), strictly inside when the interval is not empty;
+    `start` / `stop` are consecutive entries of the recorder's flush times (AFTER notifications of the simulator at which nothing
+    recorded after an edge of the same time is pending, and the end of the run). -/
 theorem tv_group_in_interval (rest : List TEv) (hm : Mono 0 rest) (g : Group) (hg : g ∈ run 0 {} (.powerOn :: rest)) :
     (g.start ≤ g.target ∧ g.target ≤ g.stop ∧ (g.start < g.stop → g.start < g.target ∧ g.target < g.stop)) ∧
-    (flushTimes rest)[g.interval]? = some g.stop ∧ g.start = intervalStart 0 (flushTimes rest) g.interval := by
-  simp only [run, step, List.nil_append] at hg
-  refine ⟨run_bracket rest 1 _ 0 0 ⟨by simp only [psPerSec]; grind, Rat.le_refl, Rat.le_refl⟩ hm g hg, ?_⟩
-  obtain ⟨m, h1, h2, h3⟩ := run_flushTimes rest 1 _ 0 hm g hg
-  simp only [Nat.zero_add] at h1
-  subst h1
-  exact ⟨h2, h3⟩
+    (flushTimes 1 (step 0 {} .powerOn).2 rest)[g.interval]? = some g.stop ∧
+    g.start = intervalStart 0 (flushTimes 1 (step 0 {} .powerOn).2 rest) g.interval := by
+  simp only [run] at hg
+  have hinv : TimeInv (step 0 {} TEv.powerOn).2 0 0 := ⟨by simp only [step, psPerSec]; grind, by simp [step], by simp [step]⟩
+  refine ⟨run_bracket rest 1 _ 0 0 hinv hm g (by simpa [step] using hg), ?_⟩
+  obtain ⟨m, h1, h2, h3⟩ := run_flushTimes rest 1 (step 0 {} .powerOn).2 0 hm g (by simpa [step] using hg)
+  have h1' : g.interval = m := by simpa [step] using h1
+  subst h1'
+  exact ⟨h2, by simpa [step] using h3⟩
+
+/-- **Nothing recorded after the clock edges of a time is written at that time.** Every group is scheduled strictly behind the
+    flush that precedes it (`start < target`) — except groups written in an empty flush interval, and those only hold what arrived in
+    the BEFORE or DURING phase of the pass that flushed them (stimuli the edge must capture, reads that must not see it), never
+    anything recorded after the flush at that time. For every callback sequence the simulator can produce (`passes`), any times. -/
+theorem tv_after_edge_strict (rest : List TEv) (hm : Mono 0 rest) (hp : passes none (.powerOn :: rest) = true)
+    (g : Group) (hg : g ∈ run 0 {} (.powerOn :: rest)) :
+    g.start < g.target ∨
+    (g.target = g.start ∧ g.start = g.stop ∧
+      ∀ x ∈ g.items, ∃ c, (phaseTrack none (.powerOn :: rest))[x.tag]? = some c ∧ (c = some (.before, g.stop) ∨ c = some (.during, g.stop))) := by
+  have hb := (tv_group_in_interval rest hm g hg).1
+  by_cases hlt : g.start < g.stop
+  · exact Or.inl (hb.2.2 hlt).1
+  · have heq : g.start = g.stop := by
+      have := Rat.le_trans hb.1 hb.2.1
+      grind
+    refine Or.inr ⟨by have := hb.1; have := hb.2.1; grind, heq, ?_⟩
+    exact run_edge_recorded _ hp g hg heq
 
 /-- **Groups are written in (clock interval, micro tick) order**, each interval and phase at most once. -/
 theorem tv_groups_sorted (evs : List TEv) : (run 0 {} evs).Pairwise (fun a b => keyLt a.key b.key) :=
   run_sorted evs 0 {}
 
 /-- **Every written statement is the statement its callback produced, in the group of the (interval, phase) that callback
-    belongs to**: nothing is invented, nothing leaves its clock interval. (`slots` counts AFTER-phase notifications and micro ticks;
-    overrides made in the DURING phase belong to phase 0 of the next interval.) -/
+    belongs to**: nothing is invented, nothing leaves its interval. (`slots`: interval = number of flushes so far, phase = index of
+    the last open phase; overrides made in the DURING phase belong to the phase opened by the coming AFTER notification.) -/
 theorem tv_statement_slot (evs : List TEv) (hfin : FinishLast evs) (g : Group) (hg : g ∈ run 0 {} evs) (x : Tagged)
     (hx : x ∈ g.items) :
-    (slots 0 0 evs)[x.tag]? = some (some (g.interval, g.phase)) ∧ (evs[x.tag]?).bind (produced x.tag) = some x :=
+    (slots 0 {} evs)[x.tag]? = some (some (g.interval, g.phase)) ∧ (evs[x.tag]?).bind (produced x.tag) = some x :=
   run_recorded evs hfin g hg x hx
 
 /-- Inside a group the CHECKs come first, then the SETs, then the RSTs (what a read in a phase saw does not include the
@@ -114,7 +135,7 @@ theorem tv_check_after_observed (rest : List TEv) (hfin : FinishLast rest) (g h 
     (hg : g ∈ run 0 {} (.powerOn :: rest)) (hh : h ∈ run 0 {} (.powerOn :: rest))
     (x y : Tagged) (hx : x ∈ g.items) (hy : y ∈ h.items) (m : Nat) (ex em ey : TEv) (hxm : x.tag < m) (hmy : m < y.tag)
     (h1 : (TEv.powerOn :: rest)[x.tag]? = some ex) (h2 : (TEv.powerOn :: rest)[m]? = some em) (h3 : (TEv.powerOn :: rest)[y.tag]? = some ey)
-    (hb : if ex.during then ∃ now, em = .newPhase true now else em.boundary = true) (hd : ey.during = false) :
+    (hb : if ex.during then ∃ now, em = .newPhase .after now else em.boundary = true) (hd : ey.during = false) :
     [g, h].Sublist (run 0 {} (.powerOn :: rest)) := by
   have hfin' : FinishLast (.powerOn :: rest) := by simpa [FinishLast] using hfin
   have sx := (run_recorded _ hfin' g hg x hx).1
@@ -131,7 +152,7 @@ theorem tv_check_after_observed (rest : List TEv) (hfin : FinishLast rest) (g h 
         | succ j =>
           rw [hxt] at sx h1; rw [hyt] at sy h3; rw [hmt] at h2
           simp only [slots, List.getElem?_cons_succ] at sx sy h1 h2 h3
-          exact slots_order rest 0 1 i m' j _ _ ex em ey (by omega) (by omega) (by omega) sx h1 h2 hb sy h3 hd
+          exact slots_order rest 1 _ i m' j _ _ ex em ey (by simp [step]) (by omega) (by omega) sx h1 h2 hb sy h3 hd
   exact sorted_sublist _ (fun a => keyLt_irrefl a.key) (fun a b => keyLt_asymm a.key b.key) _ (run_sorted _ 0 {}) g h hg hh hlt
 
 /-! ## non-vacuity -/
@@ -166,15 +187,21 @@ example : specValue exCfg exEvs 0 10000 = [.f, .t, .t, .f, .f, .f, .f, .f] := by
 example : (specValue exCfg exEvs 2 10333).length = 70 ∧ (specValue exCfg exEvs 2 10333)[66]? = some .x := by decide
 
 def exTv : List TEv :=
-  [.rst false ['r'] true, .set false ['a'] [.t, .x], .newPhase false (1/200000000), .newPhase true (1/200000000), .microTick,
-   .read ['o'] false [.f, .t], .newPhase false (1/100000000), .set true ['a'] [.f, .f], .read ['o'] false [.x, .t], .microTick,
-   .newPhase true (1/100000000), .microTick, .read ['o'] true [.t], .finish (1/80000000)]
+  [.rst false ['r'] true, .set false ['a'] [.t, .x],
+   .newPhase .before 5, .newPhase .during 5, .newPhase .after 5, .microTick, .read ['o'] false [.f, .t],
+   .newPhase .before 10, .newPhase .during 10, .set true ['a'] [.f, .f], .read ['o'] false [.x, .t], .microTick,
+   .newPhase .after 10, .microTick, .read ['o'] true [.t],
+   -- the same time step is entered again: what is pending was recorded after its edge and is kept
+   .newPhase .before 10, .newPhase .during 10, .newPhase .after 10, .read ['o'] true [.f],
+   .finish 12]
 
 example : Mono 0 exTv := by simp [exTv, Mono]; grind
 example : FinishLast exTv := by simp [exTv, FinishLast]
--- four groups are written: (interval, phase) = (0,0) power-on SET+RST, (1,2) two CHECKs, (2,0) the postponed DURING SET, (2,2) CHECK
+example : passes none (.powerOn :: exTv) = true := by simp [exTv, passes, inDuring, inBefore]
+-- five groups are written: (interval, phase) = (0,0) power-on SET+RST, (1,2) two CHECKs, (2,0) the postponed DURING SET,
+-- (2,2) CHECK recorded after the edge at time 10, (2,4) CHECK recorded after that time step was entered again (same interval: kept)
 example : (run 0 {} (.powerOn :: exTv)).map (fun g => (g.interval, g.phase, g.checks.length, g.sets.length, g.rsts.length))
-    = [(0, 0, 0, 1, 1), (1, 2, 2, 0, 0), (2, 0, 0, 1, 0), (2, 2, 1, 0, 0)] := by
-  simp [run, step, exTv, flush, flushGo, Phase.isEmpty, modifyLast, mapSet, renderCheck, renderState]
+    = [(0, 0, 0, 1, 1), (1, 2, 2, 0, 0), (2, 0, 0, 1, 0), (2, 2, 1, 0, 0), (2, 4, 1, 0, 0)] := by
+  simp [run, step, exTv, flush, flushGo, Phase.isEmpty, modifyLast, mapSet, renderCheck, renderState, renderSet, pendingNow, finishStop]
 
 end Gatery.C20.Props
